@@ -183,6 +183,41 @@ func c01Run(c *engine.Ctx) {
 	runGrammarVsModel(c, GrammarF4(), sz["F4"], inputs[:8], nil)
 	runGrammarVsModel(c, GrammarFull(), sz["full"], inputs, nil)
 
+	// labels are lexically scoped: a label of the same name nested inside another one, with closures that break out
+	// defined before, between and inside them
+	c.Sub("label-scoping")
+	if c.MineIdx(3) {
+		defs := []string{"", "def f: break $a; ", "def f: 7, break $a; ", "def f(g): g, break $a; "}
+		gens := []string{"(10,20)", "1", ".[]?", "(10,20,30)"}
+		inners := []string{"$a", "$b"}
+		uses := []string{"., f", "., break $a", "(., f), 9", "f", "., f, 8", "first(., f)", "[., f][]", "try (., f) catch 5"}
+		for _, d1 := range defs {
+			for _, d2 := range defs {
+				for _, gen := range gens {
+					for _, in := range inners {
+						for _, use := range uses {
+							if !strings.Contains(d1+d2, "def f") && strings.Contains(use, "f") && use != "first(., f)" {
+								if strings.Contains(strings.ReplaceAll(use, "first", ""), "f") {
+									continue
+								}
+							}
+							u := strings.ReplaceAll(use, "f", "f")
+							if strings.Contains(d1+d2, "f(g)") && !strings.Contains(d2, "def f:") && !(strings.Contains(d1, "def f:") && d2 == "") {
+								u = strings.ReplaceAll(u, "f", "f(3)")
+							}
+							u = strings.ReplaceAll(u, "f(3)irst", "first")
+							prog := "[label $a | " + d1 + gen + " | label " + in + " | " + d2 + u + "]"
+							compareProgram(c, prog, []any{nil, univ.J(`[1,2]`)}, nil)
+							prog3 := "[label $a | " + d1 + "label $a | " + d2 + gen + " | label " + in + " | " + u + ", 4]"
+							compareProgram(c, prog3, []any{nil, univ.J(`[1,2]`)}, nil)
+						}
+					}
+				}
+			}
+		}
+	}
+	c.Sample(map[string]any{"program": "[label $a | def f: break $a; (10,20) | label $a | ., f]", "expected": "[10]: f breaks out of the label it was defined under"})
+
 	// context towers
 	c.Sub("towers")
 	depth := 2
